@@ -343,6 +343,82 @@ def stream_unbroadcast(R, unbroadcast, broadcast_arrays_minimal):
     R.stream('unbroadcast', cases=len(cases), exhaustive=True, bound='all stride patterns on shapes of 1..3 axes')
 
 
+def stream_broadcast_minimal(R, broadcast_arrays_minimal):
+    """broadcast_arrays_minimal on 2 or 3 inputs of DIFFERENT shapes (mutually broadcastable: length-1 axes, missing leading axes)
+    and independent stride-0 patterns (round 6, seeded change C20-10: the first input's shape imposed on the others).
+    Oracle = the statement: all results share one shape, each is a view that broadcasts back to what numpy's own
+    broadcast_arrays gives for the original inputs, and an axis is kept only if some input really varies along it."""
+    rng = R.subrng('bmin')
+    full_shapes = [sh for sh in shapes(3, R.pick([1, 2, 3], [1, 2, 3, 4]))]
+    cases = []
+    for full in full_shapes:
+        for _ in range(R.pick(6, 30)):
+            k = rng.choice([2, 2, 3])
+            ins = []
+            for j in range(k):
+                drop = rng.randrange(0, len(full)) if rng.random() < 0.3 else 0          # missing leading axes
+                shp = [1 if rng.random() < 0.35 else n for n in full[drop:]]               # genuine length-1 axes
+                bro = [rng.random() < 0.35 for _ in shp]                                    # stride-0 axes (broadcast_to)
+                ins.append((tuple(shp), tuple(bro)))
+            cases.append((full, tuple(ins)))
+    nbad = 0
+    for full, ins in cases:
+        arrs = []
+        for j, (shp, bro) in enumerate(ins):
+            small_shape = tuple(1 if b else n for n, b in zip(shp, bro))
+            small = (np.arange(int(np.prod(small_shape)), dtype=float) * (j + 2) + 10 * j + 1).reshape(small_shape)
+            arrs.append(np.broadcast_to(small, shp))
+        R.count(('bmin', full, ins), nontrivial=len(set(a.shape for a in arrs)) > 1, stream='broadcast_minimal')
+        try:
+            want = np.broadcast_arrays(*arrs)
+        except ValueError:
+            continue
+        target = want[0].shape
+        case = {'stream': 'broadcast_minimal', 'shapes': [list(a.shape) for a in arrs], 'strides0': [[st == 0 for st in a.strides] for a in arrs]}
+        try:
+            got = broadcast_arrays_minimal(*arrs)
+        except Exception as e:
+            if nbad < 5:
+                nbad += 1
+                R.fail('oracle', case, {'raised': '%s: %s' % (type(e).__name__, str(e)[:200])})
+            continue
+        problems = []
+        if len(got) != len(arrs):
+            problems.append('returns %d arrays for %d inputs' % (len(got), len(arrs)))
+        elif len(set(tuple(g.shape) for g in got)) != 1:
+            problems.append('results have different shapes %r' % [list(g.shape) for g in got])
+        else:
+            for g, w in zip(got, want):
+                try:
+                    back = np.broadcast_to(g, target)
+                except ValueError:
+                    problems.append('result of shape %r does not broadcast back to %r' % (list(g.shape), list(target)))
+                    break
+                if not np.array_equal(back, w):
+                    problems.append('broadcasting the result back does not reproduce the input: %r vs %r' % (back.ravel().tolist()[:8], w.ravel().tolist()[:8]))
+                    break
+            else:
+                # minimal: an axis of the common shape is longer than 1 only if some input really varies along it
+                gs = got[0].shape
+                nd = len(target)
+                for ax in range(nd):
+                    varies = False
+                    for a in arrs:
+                        k_ = ax - (nd - a.ndim)
+                        if k_ >= 0 and a.shape[k_] > 1 and a.strides[k_] != 0:
+                            varies = True
+                    ax_g = ax - (nd - len(gs))
+                    length = gs[ax_g] if ax_g >= 0 else 1
+                    if length > 1 and not varies:
+                        problems.append('axis %d kept with length %d although no input varies along it' % (ax, length))
+                        break
+        if problems and nbad < 5:
+            nbad += 1
+            R.fail('oracle', case, {'problems': problems})
+    R.stream('broadcast_minimal', cases=len(cases), exhaustive=False,
+             bound='2-3 inputs per call, common shapes of 1..3 axes, per input: missing leading axes, length-1 axes, stride-0 axes (sampled)')
+
+
 def stream_categorical(R, categorical_ndarray):
     alphabets = [['a', 'b', 'c'], ['b', 'aa', 'a'], [3, 1, 2], ['x', 'xy', 'xyz'], [-1, 10, 2]]
     Lmax = R.pick(5, 6)
@@ -642,6 +718,7 @@ def run(R):
     stream_view_shape(R, view_shape)
     stream_view_shape_scalar(R, view_shape)
     stream_unbroadcast(R, unbroadcast, broadcast_arrays_minimal)
+    stream_broadcast_minimal(R, broadcast_arrays_minimal)
     stream_categorical(R, categorical_ndarray)
     stream_index_lookup(R, categorical_ndarray)
     stream_history(R)
